@@ -33,6 +33,9 @@ func (u ngapUnit) name() string {
 // thorough) and applies the oracle of C03 (bytes == reference encoding) or C04 (round trips).
 func runNGAPSweep(ctx *Ctx, prop string) {
 	r := ctx.R
+	if ctx.Isolate() {
+		return
+	}
 	s, err := loadSchema()
 	if err != nil {
 		r.HarnessError(err.Error())
@@ -176,6 +179,10 @@ func runNGAPSweep(ctx *Ctx, prop string) {
 		}
 		leavesTotal += g0.Leaves
 		st := explore.Explore(explore.Config{Bound: bound, Workers: Workers(), Deadline: deadline}, body)
+		r.Add("executions", st.Executions)
+		if st.Level1 != "" {
+			r.Consistent("level-1 vectors of "+u.name(), st.Level1)
+		}
 		if st.Complete {
 			completed++
 		} else {
@@ -190,7 +197,7 @@ func runNGAPSweep(ctx *Ctx, prop string) {
 	}
 	r.Set("leaf_positions_total", leavesTotal)
 	r.Set("deviation_bound", bound)
-	r.Set("message_types_completed", completed)
+	r.Set("message_types_completed_in_the_lead_shard", completed)
 	if len(cut) > 0 {
 		r.NotExhaustive(fmt.Sprintf("budget ended; not completed at bound %d: %v", bound, cut))
 	}
